@@ -1,12 +1,13 @@
-\* all sequences of 3 requests over one representative per pipeline exit (24)
+\* every lexeme class at every position the CIM-XML reader converts (alone and with one more
+\* deviation), followed by a valid indication: the repaired code shape meets every clause
 SPECIFICATION Spec
 CONSTANTS
-  MaxReq = 3
-  Alphabet <- Exits
+  MaxReq = 2
+  Alphabet <- LexUpTo2
   San = TRUE
   ClChk = TRUE
   Threaded = TRUE
-  FinalValid = FALSE
+  FinalValid = TRUE
   QCap = 0
   Gating = FALSE
   QfRet = TRUE
